@@ -217,7 +217,7 @@ def real_ray_smoke(rep):
         Ef = np.linspace(-2, 2, 5)
         with quiet():
             grid = wb.Grid(system, NKdiv=[3, 3, 2], NKFFT=[2, 2, 2])
-            cs = lambda: {"dos": calc.static.DOS(Efermi=Ef), "ahc": calc.static.AHC(Efermi=Ef)}  # noqa: E731
+            cs = lambda: {"dos": calc.static.DOS(Efermi=Ef), "ahc": calc.static.AHC(Efermi=Ef, kwargs_formula={"external_terms": False})}  # noqa: E731
             kw = dict(adpt_num_iter=0, use_irred_kpt=False, symmetrize=False, fout_name=_fout())   # no refinement: workers in
             rs = wb.run(system, grid, cs(), parallel=False, **kw)                                   # other processes may round
             try:                                                                                   # a near-tie differently
